@@ -2,11 +2,12 @@
 from l2lib import *
 
 NONE = 9999
-NEW = lambda a, b=0, dl=NONE, x=0: lop("new", a=a, b=b, dl=dl, x=x)
-NOTIFY = lambda a: lop("notify", a=a, x=0)
-POLL = lambda a: lop("poll", a=a, x=0)
-FREE = lambda a: lop("free", a=a, x=0)
-WAIT = lambda a, dl=NONE: lop("wait", a=a, dl=dl, x=0)
+NEW = lambda a, b=0, dl=NONE, x=0: lop("new", a=a, b=b, dl=dl, x=x, objs=[])
+NOTIFY = lambda a: lop("notify", a=a, x=0, objs=[])
+POLL = lambda a: lop("poll", a=a, x=0, objs=[])
+FREE = lambda a: lop("free", a=a, x=0, objs=[])
+WAIT = lambda a, dl=NONE: lop("wait", a=a, dl=dl, x=0, objs=[])
+WAITN = lambda objs, dl=NONE: lop("waitn", a=int("".join(str(o) for o in objs)), dl=dl, x=0, objs=list(objs))
 
 
 def T(*es):
@@ -32,6 +33,14 @@ CONF = {
     "n_new_free": (["C09"], "q", dict(tree=T((1, 0, NONE)), NN=2, progs=[[NEW(2, 1), FREE(2)], [NOTIFY(1)], [POLL(1)]])),
     "n_wait_free": (["C09", "C13"], "t", dict(tree=CHAIN2, NN=2, MaxNow=1, progs=[[WAIT(2, 1), FREE(2)], [NOTIFY(1)]])),
     "n_tree4": (["C08", "C09"], "t", dict(tree=T((1, 0, NONE), (2, 1, NONE), (3, 2, NONE), (4, 1, NONE)), NN=4, progs=[[NOTIFY(1)], [NOTIFY(3), FREE(3)], [WAIT(4), POLL(2)]])),
+    # nsync_wait_n over several notes: stack records (count <= 4) and the heap path (count = 5)
+    "w_2": (["C11", "C13"], "q", dict(tree=T((1, 0, NONE), (2, 0, NONE)), NN=2, MaxNow=1, progs=[[WAITN([1, 2], 1), POLL(2)], [NOTIFY(2)]])),
+    "w_2b": (["C11"], "q", dict(tree=T((1, 0, NONE), (2, 1, NONE)), NN=2, MaxNow=0, progs=[[WAITN([2, 1])], [NOTIFY(1)]])),
+    "w_3dl": (["C11", "C13"], "q", dict(tree=T((1, 0, NONE), (2, 0, 1), (3, 0, NONE)), NN=3, MaxNow=1, progs=[[WAITN([1, 2, 3])], [NOTIFY(3)]])),
+    "w_5heap": (["C11", "C13"], "q", dict(tree=T((1, 0, NONE), (2, 0, NONE), (3, 0, NONE), (4, 0, NONE), (5, 0, NONE)), NN=5, MaxNow=1,
+                                          progs=[[WAITN([1, 2, 3, 4, 5], 1)], [NOTIFY(4)]])),
+    "w_ready": (["C11"], "q", dict(tree=T((1, 0, NONE), (2, 0, NONE), (3, 0, -1)), NN=3, MaxNow=0, progs=[[NOTIFY(2), WAITN([1, 2, 3]), WAITN([1, 3]), WAITN([1], -1)]])),
+    "w_2callers": (["C11"], "t", dict(tree=T((1, 0, NONE), (2, 0, NONE)), NN=2, MaxNow=1, progs=[[WAITN([1, 2], 1)], [WAITN([2, 1])], [NOTIFY(1), NOTIFY(2)]])),
     # C19: allocation failure at every constructor call of tree-building scenarios
     "a_seq": (["C19"], "q", dict(tree=T((1, 0, NONE)), NN=3, progs=[[NEW(2, 1, NONE, 1), NEW(2, 1), NEW(3, 2, 5, 1), NEW(3, 2, 5), NOTIFY(1), POLL(3)]])),
     "a_root": (["C19"], "q", dict(tree=T(), NN=2, progs=[[NEW(1, 0, NONE, 1), NEW(1, 0, 3), NEW(2, 1, 7, 1), NEW(2, 1, 7), POLL(2)]], MaxNow=0)),
